@@ -653,6 +653,35 @@ func c20Cases(quick bool) []c20Case {
 			}
 		})
 	}
+	// chunk sizes at and around the size of the upload buffer (16 MiB) with a content that fills the buffer
+	for _, cs := range []int32{16<<20 - 1, 16 << 20, 16<<20 + 1, 24 << 20} {
+		cs := cs
+		add("driver-gridfs-chunk-size", true, func() string {
+			return fmt.Sprintf("GridFS upload of 16 MiB + 10 bytes with chunk size %d: OpenUploadStream + Write + Close, DownloadToStream", cs)
+		}, func(w *world.World) {
+			db := w.Client.Database("gfsbig")
+			_ = db.Drop(w.Ctx)
+			b := lungo.NewBucket(db)
+			content := make([]byte, 16<<20+10)
+			for i := range content {
+				content[i] = byte(i >> 10)
+			}
+			st, err := b.OpenUploadStreamWithID(w.Ctx, "big", "big", options.GridFSUpload().SetChunkSizeBytes(cs))
+			if err != nil {
+				return
+			}
+			_, _ = st.Write(content[:100])
+			_, _ = st.Write(content[100:])
+			if st.Close() != nil {
+				return
+			}
+			var buf bytes.Buffer
+			if n, err := b.DownloadToStream(w.Ctx, "big", &buf); err == nil && (int(n) != len(content) || !bytes.Equal(buf.Bytes(), content)) {
+				panic(fmt.Sprintf("an upload of %d bytes that was acknowledged downloads as %d bytes (equal content: %v)", len(content), n, bytes.Equal(buf.Bytes(), content)))
+			}
+			_ = db.Drop(w.Ctx)
+		})
+	}
 	// find-one-and-modify calls in every combination of their options, with updates that change the document, leave it
 	// as it is, or are rejected, on filters that match and that match nothing
 	type famUpdate struct {
